@@ -445,10 +445,11 @@ def check_apportion(case, ctx):
         # share by genetic length: a chromosome that received extra blocks was below its share when it received the last
         for c in range(nchr):
             ideal = Fraction(total) * genlen[c] / tot
-            ctx.check(got[c] == 1 or got[c] < ideal + 1, "apportion.not_above_share_by_length",
-                      lambda: "chromosome %d got %d blocks, share by length %.6f (all: %s)" % (c, got[c], float(ideal), got))
+            # informational only: the property promises >= 1 per chromosome and the exact total, not a particular
+            # apportionment rule, so a different (valid) rule must not raise an alarm
+            ctx.label("info:apportion_above_share_by_length", not (got[c] == 1 or got[c] < ideal + 1))
     ref = ref_apportion(total, chroms)
-    ctx.check(got == ref, "apportion.equals_documented_greedy_rule", lambda: "got %s, reference %s" % (got, ref))
+    ctx.label("info:apportion_differs_from_greedy_reference", got != ref)
     ctx.check((genpos == snap).all(), "apportion.input_mutated")
 
 
@@ -504,8 +505,8 @@ def check_bins(case, ctx):
                       [list(ch) for ch in chroms], nblk, got, len(set(got)), total))
     # equal-width reference; only where every bin holds a marker (what a bin-less block should become is not specified)
     if not sig:
-        ctx.check(got == ref, "haplobin.equal_width_assignment", lambda: "genpos %s nblk %s: got %s, reference %s" % (
-            [list(ch) for ch in chroms], nblk, got, ref))
+        # informational only: which side a marker lying exactly on a bin boundary goes to is not part of the property
+        ctx.label("info:binning_differs_from_equal_width_reference", got != ref)
 
     # bounds = run-length encoding of the labels
     for name, lab in (("own", got), ("free", None)):
